@@ -36,6 +36,7 @@ type World struct {
 	Contracts *ContractSet
 	Pkgs      map[string]*ssa.Package // by import path
 	TypesPkgs map[string]*types.Package
+	Aliases   map[string]map[string]string // package path -> import alias -> imported path
 	tags      map[string]int
 }
 
@@ -98,6 +99,7 @@ type Enc struct {
 	famSorts  map[string]string
 	backOrd   map[*ssa.BasicBlock]int
 	selfGhost map[string]ghostInst
+	allWrites map[string]bool
 }
 
 func (w *World) tagFor(name string) int {
@@ -210,7 +212,7 @@ func (e *Enc) assertOb(name string, goal Term, desc string, pos token.Pos) {
 		p = e.W.Fset.Position(pos)
 	}
 	e.obligs++
-	term := strings.HasPrefix(name, "post#") || strings.HasPrefix(name, "loop")
+	term := strings.HasPrefix(name, "post#") || strings.HasPrefix(name, "loop") || strings.HasPrefix(name, "frame:")
 	e.items = append(e.items, Item{Kind: itAssert, Text: f.S, Name: e.fnLabel + "/" + name, Desc: desc, Pos: p, Quant: hasQuant(f.S), Term: term})
 }
 
@@ -229,7 +231,11 @@ func (e *Enc) assumption(s string) {
 }
 
 func (e *Enc) noteWrite(name string) {
-	if !e.discovery || e.curB == nil {
+	if !e.discovery {
+		return
+	}
+	e.allWrites[name] = true
+	if e.curB == nil {
 		return
 	}
 	for _, li := range e.loopList {
@@ -356,4 +362,3 @@ func (e *Enc) topoOrder() []*ssa.BasicBlock {
 	}
 	return post
 }
-
